@@ -77,14 +77,19 @@ def main():
     # run every check against /repo with the patch applied
     m = json.load(open(os.path.join(VERIF, 'MANIFEST.json')))
     results = {}
-    rc, out = sh('git -C /repo apply %s' % patch)
+    # checks run against /repo with the patch applied (and undone straight afterwards), or - with
+    # VERIF_SEEDED_VIA_WORKTREE=1 and a scratch worktree given - against that worktree via --repo,
+    # so that several candidates can be evaluated at the same time without touching /repo
+    via_wt = bool(os.environ.get('VERIF_SEEDED_VIA_WORKTREE')) and reuse
+    target = reuse if via_wt else '/repo'
+    rc, out = sh('git -C %s apply %s' % (target, patch))
     assert rc == 0, out
     try:
         ev = tempfile.mkdtemp(prefix='seeded_ev_')
         from concurrent.futures import ThreadPoolExecutor
         pids = [c['property_id'] for c in m['checks']]
-        with ThreadPoolExecutor(16) as ex:
-            res = list(ex.map(lambda pid: sh('%s check %s --tier quick --evidence-dir %s' % (PY, pid, ev), cwd=VERIF, timeout=600), pids))
+        with ThreadPoolExecutor(int(os.environ.get('VERIF_SEEDED_JOBS', '16'))) as ex:
+            res = list(ex.map(lambda pid: sh('%s check %s --tier quick --repo %s --evidence-dir %s' % (PY, pid, target, ev), cwd=VERIF, timeout=900), pids))
         for pid, (rc, out) in zip(pids, res):
             fired = []
             if rc == 1:
@@ -94,8 +99,8 @@ def main():
             results[pid] = {'exit': rc, 'findings': fired[:6]}
         shutil.rmtree(ev, ignore_errors=True)
     finally:
-        sh('git -C /repo checkout -- .')
-        rc, out = sh('git -C /repo status --short')
+        sh('git -C %s checkout -- .' % target)
+        rc, out = sh('git -C %s status --short' % target)
         assert out.strip() == '', out
     caught = {p: r for p, r in results.items() if r['exit'] == 1}
     errors = {p: r for p, r in results.items() if r['exit'] not in (0, 1)}
